@@ -58,12 +58,24 @@ def gen_case(rng, tier, idx, fill=False):
     sch = schedules.rand_schedule(rng, n, bucket=max(1, tf_s // step), encs=("candle", "dict", "list"))
     sch["precalc"] = False
     return {"rows": rows, "tf": tf, "entry": rng.choice(["manager", "manager", "indicator", "hexital_member", "hexital_level"]),
-            "schedule": sch, "extra_passes": rng.choice([0, 0, 0, 1, 2, 3]), "ts_mode": mode, "fill": fill}
+            "schedule": sch, "extra_passes": rng.choice([0, 0, 0, 1, 2, 3]), "ts_mode": mode, "fill": fill, "tf_enum": rng.random() < 0.25}
+
+
+def tf_arg(tf, as_enum):
+    """the same timeframe as the TimeFrame enum member when one exists (all three spellings are documented inputs)"""
+    if as_enum:
+        from hexital import TimeFrame
+        for m in TimeFrame:
+            if m.value == tf.upper():
+                return m
+    return tf
 
 
 class Target:
-    def __init__(self, entry, tf, fill, candles):
+    def __init__(self, entry, tf, fill, candles, as_enum=False):
         self.entry = entry
+        tf_key = tf
+        tf = tf_arg(tf, as_enum)
         if entry == "manager":
             self.obj = CandleManager(candles, timeframe=tf, timeframe_fill=fill)
             self.mgr = self.obj
@@ -72,7 +84,7 @@ class Target:
             self.mgr = self.obj.candle_manager
         elif entry == "hexital_member":
             self.obj = Hexital("t", candles, [SMA(period=3, timeframe=tf)], timeframe_fill=fill)
-            self.mgr = self.obj._candles[tf.upper()]
+            self.mgr = self.obj._candles[tf_key.upper()]
         elif entry == "hexital_level":
             self.obj = Hexital("t", candles, [SMA(period=3)], timeframe=tf, timeframe_fill=fill)
             self.mgr = self.obj._candles["default"]
@@ -164,7 +176,9 @@ def run_case(case):
 
     pre = sch["preload"]
     try:
-        t = Target(entry, tf, fill, rows_to_candles(rows[:pre]))
+        t = Target(entry, tf, fill, rows_to_candles(rows[:pre]), case.get("tf_enum", False))
+        if case.get("tf_enum"):
+            stats["timeframe_given_as_enum"] = 1
         ok = check(t, pre, "construction")
         pos = pre
         for size in sch["chunks"]:
